@@ -382,6 +382,37 @@ def table_shape_ok(root):
     return ok
 
 
+def statement_check(pid, cases):
+    """Evaluate the STATEMENT of C02_faithful / C03_sections_ok / C03_rows_match_cols (extracted, executable) on real
+    token trees: a counterexample search for the theorems.  Returns list of dicts {static, dropped, equal, sections,
+    transitions, rows, lexer_ok} or None where the model does not render the case."""
+    from gen import c02_lib as L
+    items, idx, res = [], [], [None] * len(cases)
+    for i, case in enumerate(cases):
+        try:
+            cfg = L.make_config(case.get("mode", "myst"), list(case.get("exts") or ()), **dict(case.get("kw") or {}))
+            root, toks, env = L.token_tree(cfg, case["text"])
+        except Exception:
+            continue
+        items.append((case, root, len(env.get("duplicate_refs", []))))
+        idx.append(i)
+    replies, _ = model_render(pid, "skel", items) if items else ([], 0)
+    tables = getattr(model_render, "last_tables", [])
+    strip1 = lambda x: x[:-1] if x.endswith("\n") else x   # noqa: E731
+    for j, i in enumerate(idx):
+        r = replies[j]
+        if not r.startswith("S "):
+            continue
+        b = [c == "1" for c in r[2:]]
+        lex_ok = True
+        for (name, key), val in (tables[j].items() if j < len(tables) else ()):
+            if name == "lex" and val is not None and strip1("".join(v for _, v in val)) != strip1(key[1]):
+                lex_ok = False
+        res[i] = {"static": b[0], "dropped": b[1], "equal": b[2], "sections": b[3], "transitions": b[4], "rows": b[5],
+                  "lexer_ok": lex_ok}
+    return res
+
+
 def correspond(pid, cases, stage="parse", check_tokens=False):
     """Model vs implementation on a batch. Returns list of dicts:
        {"status": agree|disagree|notmodelled|impl-exception|model-error, ..., "oracle_tests": {name: count}}"""
